@@ -537,6 +537,22 @@ func (in *elInterp) walkStmt(st ast.Stmt, fd *ast.FuncDecl, depth int, defers *[
 			}
 		}
 		in.bind(x.Lhs, x.Rhs, depth)
+		for _, l := range x.Lhs {
+			// a write to the device's list of entities (the field is found by its type, see elTreeFields): the whole
+			// field, or one of its elements
+			for {
+				if ix, ok := l.(*ast.IndexExpr); ok {
+					l = ix.X
+				} else if pe, ok := l.(*ast.ParenExpr); ok {
+					l = pe.X
+				} else {
+					break
+				}
+			}
+			if s, ok := l.(*ast.SelectorExpr); ok && elTreeFields[s.Sel.Name] {
+				in.emit("treewrite", exprString(l), depth)
+			}
+		}
 		for i, l := range x.Lhs {
 			if s, ok := l.(*ast.SelectorExpr); ok && s.Sel.Name == "features" && i < len(x.Rhs) {
 				if c, ok := x.Rhs[i].(*ast.CallExpr); ok && exprString(c.Fun) == "append" {
@@ -783,6 +799,49 @@ func (in *elInterp) call(c *ast.CallExpr, fd *ast.FuncDecl, depth int) {
 }
 
 var elModelUC map[string]bool
+
+// elTreeFields: the fields of DeviceLocal that hold the local entities — found by TYPE (a slice, array or map whose
+// element type mentions EntityLocalInterface or EntityLocal), whatever they are called
+var elTreeFields map[string]bool
+
+// elIsAnnounce: a call that sends (or leads to sending) a notification: the exported Sender.Notify /
+// DeviceLocal.NotifySubscribers, or a helper named notify… (helpers on the receiver are followed anyway)
+func elIsAnnounce(name string) bool {
+	if i := strings.LastIndex(name, "."); i >= 0 {
+		name = name[i+1:]
+	}
+	return strings.HasPrefix(strings.ToLower(name), "notify")
+}
+
+// elChangeBeforeAnnounce flattens DeviceLocal.<op> (helpers on the receiver followed, defer and explicit unlock
+// alike) and reports whether every write to the entity list precedes the first notification, and whether every such
+// write happens under a mutex of the device
+func elChangeBeforeAnnounce(funcs map[string]*ast.FuncDecl, pkgMutex map[string]bool, key string) (first, locked bool, detail string) {
+	tr := elTrace(funcs, key)
+	ann, nw, late, unheld := -1, 0, 0, 0
+	for i, e := range tr {
+		switch {
+		case e.kind == "call" && elIsAnnounce(e.detail) && ann < 0:
+			ann = i
+		case e.kind == "treewrite":
+			nw++
+			if ann >= 0 {
+				late++
+			}
+			n := 0
+			for m := range e.held {
+				if !pkgMutex[m] {
+					n++
+				}
+			}
+			if n == 0 {
+				unheld++
+			}
+		}
+	}
+	return nw > 0 && ann >= 0 && late == 0, nw > 0 && unheld == 0,
+		fmt.Sprintf("%s: %d writes to the entity list, %d after the first notification call, %d outside a device mutex, notification call found=%v", key, nw, late, unheld, ann >= 0)
+}
 var elUCDecl map[string]*ast.FuncDecl
 
 func elTrace(funcs map[string]*ast.FuncDecl, key string) []elEvent {
@@ -804,6 +863,7 @@ func genEntityLocal(outDir string) (string, error) {
 		return "", err
 	}
 	funcs := map[string]*ast.FuncDecl{}
+	elTreeFields = map[string]bool{}
 	pkgMutex := map[string]bool{} // package-level variables of a sync mutex type
 	for _, e := range ents {
 		n := e.Name()
@@ -822,6 +882,29 @@ func genEntityLocal(outDir string) (string, error) {
 					funcs[key] = x
 				}
 			case *ast.GenDecl:
+				if x.Tok == token.TYPE {
+					for _, sp := range x.Specs {
+						ts := sp.(*ast.TypeSpec)
+						st, ok := ts.Type.(*ast.StructType)
+						if !ok || ts.Name.Name != "DeviceLocal" {
+							continue
+						}
+						for _, fl := range st.Fields.List {
+							var elem ast.Expr
+							switch t := fl.Type.(type) {
+							case *ast.ArrayType:
+								elem = t.Elt
+							case *ast.MapType:
+								elem = t.Value
+							}
+							if elem != nil && strings.Contains(exprString(elem), "EntityLocal") {
+								for _, nm := range fl.Names {
+									elTreeFields[nm.Name] = true
+								}
+							}
+						}
+					}
+				}
 				if x.Tok != token.VAR {
 					continue
 				}
@@ -1130,6 +1213,16 @@ func genEntityLocal(outDir string) (string, error) {
 		}
 	}
 
+	// ---- AddEntity / RemoveEntity: the entity list changes before the notification goes out (C07, round 6)
+	addFirst, addLocked, addDetail := elChangeBeforeAnnounce(funcs, pkgMutex, "DeviceLocal.AddEntity")
+	remFirst, remLocked, remDetail := elChangeBeforeAnnounce(funcs, pkgMutex, "DeviceLocal.RemoveEntity")
+	if !addFirst || !addLocked {
+		notes = append(notes, addDetail)
+	}
+	if !remFirst || !remLocked {
+		notes = append(notes, remDetail)
+	}
+
 	var b strings.Builder
 	b.WriteString("/-! GENERATED by go/cmd/translate (generator `entitylocal`) from the spine package (entity_local.go, entity.go and the helpers they call) — do not edit. -/\n")
 	b.WriteString("namespace Spine.Generated.EntityLocal\n\n")
@@ -1148,6 +1241,9 @@ func genEntityLocal(outDir string) (string, error) {
 	fmt.Fprintf(&b, "/-- GetOrAddFeature: NewFeatureLocal and the append to the feature list lie inside one critical section of a mutex of the entity -/\ndef getOrAddCreationLocked : Bool := %v\n\n", creationLocked)
 	fmt.Fprintf(&b, "/-- GetOrAddFeature: in that critical section, before the creation, the feature list is searched by type and role and a match is returned -/\ndef getOrAddRechecks : Bool := %v\n\n", rechecks)
 	fmt.Fprintf(&b, "/-- Entity.NextFeatureId: everything it calls happens under a mutex of the entity -/\ndef nextFeatureIdLocked : Bool := %v\n\n", nextLocked)
+	fmt.Fprintf(&b, "/-- DeviceLocal.AddEntity: every write to the device's list of entities (field found by type: %s) precedes the first call that sends the notification (through helpers on the receiver) -/\ndef addEntityChangeBeforeNotify : Bool := %v\n\n", strings.Join(sortedKeys(elTreeFields), ","), addFirst)
+	fmt.Fprintf(&b, "/-- DeviceLocal.RemoveEntity: likewise -/\ndef removeEntityChangeBeforeNotify : Bool := %v\n\n", remFirst)
+	fmt.Fprintf(&b, "/-- AddEntity / RemoveEntity: every write to the list of entities happens under a mutex of the device -/\ndef entityListWritesLocked : Bool := %v\n\n", addLocked && remLocked)
 	for _, n := range notes {
 		fmt.Fprintf(&b, "-- note: %s\n", n)
 	}
@@ -1155,11 +1251,11 @@ func genEntityLocal(outDir string) (string, error) {
 	if err := writeFile(outDir, "EntityLocal.lean", b.String()); err != nil {
 		return "", err
 	}
-	return fmt.Sprintf("useCaseMuxPackageLevel=%v locked=%v/%v/%v/%v helpers=%d/%d/%d/%d hasReadOnly=%v ownAddress=%v/%v/%v/%v/%v creationLocked=%v rechecks=%v searchesLocked=%v nextFeatureIdLocked=%v",
+	return fmt.Sprintf("useCaseMuxPackageLevel=%v locked=%v/%v/%v/%v helpers=%d/%d/%d/%d hasReadOnly=%v ownAddress=%v/%v/%v/%v/%v creationLocked=%v rechecks=%v searchesLocked=%v nextFeatureIdLocked=%v entityChangeBeforeNotify=%v/%v entityListWritesLocked=%v",
 		pkgLevel, locked[ucOps[0]], locked[ucOps[1]], locked[ucOps[2]], locked[ucOps[3]],
 		rmwCode(helperCode[helperOf[ucOps[0]]]), rmwCode(helperCode[helperOf[ucOps[1]]]), rmwCode(helperCode[helperOf[ucOps[2]]]), rmwCode(helperCode[helperOf[ucOps[3]]]), hasReadOnly,
 		ownAddr[ucOps[0]], ownAddr[ucOps[1]], ownAddr[ucOps[2]], ownAddr[ucOps[3]], ownAddr["HasUseCaseSupport"],
-		creationLocked, rechecks, searchesLocked, nextLocked), nil
+		creationLocked, rechecks, searchesLocked, nextLocked, addFirst, remFirst, addLocked && remLocked), nil
 }
 
 // elAllOwn: the trace applies a helper and every application is handed the receiver's own address
